@@ -2,7 +2,7 @@
   Round-trip, top level: the relation "`e` is a wire encoding of the response `r`" for all the
   response kinds covered so far, and the theorem that `parseResponse` inverts it.
 -/
-import ImapVerif.Proofs.RT9
+import ImapVerif.Proofs.RT13
 
 open Bytes Parser Grammar
 
@@ -81,6 +81,66 @@ inductive EncResponse : Response → Bytes → Prop
         (b!"* " ++ ((spell (b!"STATUS ") m ++ (ename ++ (b!" " ++ ei))) ++ (List.replicate k 32 ++ b!"\r\n")))
   | capabilities (v : List Capability) (e : Bytes) (k : Nat) : EncCaps v e →
       EncResponse (.capabilities v) (b!"* " ++ (e ++ (List.replicate k 32 ++ b!"\r\n")))
+  | gmailLabels (m : List Bool) (vs : List Bytes) (e : Bytes) (k : Nat) : EncList EncLabel vs e →
+      EncResponse (.mailboxData (.gmailLabels vs))
+        (b!"* " ++ ((spell (b!"X-GM-LABELS ") m ++ e) ++ (List.replicate k 32 ++ b!"\r\n")))
+  | gmailMsgId (m : List Bool) (n : Nat) (e : Bytes) (k : Nat) : n < 2 ^ 64 → EncNumber n e →
+      EncResponse (.mailboxData (.gmailMsgId n))
+        (b!"* " ++ ((spell (b!"X-GM-MSGID ") m ++ e) ++ (List.replicate k 32 ++ b!"\r\n")))
+  /-- `* ENABLED atom ...` (reported as capabilities) -/
+  | enabled (m : List Bool) (items : List (Bytes × Bytes)) (k : Nat) :
+      (∀ x ∈ items, x.1 ≠ [] ∧ (∀ c ∈ x.1, isAtomChar c = true) ∧ validUtf8 x.1 = true ∧ x.2 = x.1) →
+      EncResponse (.capabilities (items.map fun x => Capability.atom x.2))
+        (b!"* " ++ ((spell (b!"ENABLED") m ++ (items.map fun x => b!" " ++ x.1).flatten) ++
+          (List.replicate k 32 ++ b!"\r\n")))
+  /-- `* VANISHED [(EARLIER)] uid-set` -/
+  | vanished (m : List Bool) (earlier : Option (Bytes × List Bool)) (w1 : Bytes) (uids : List (Nat × Nat))
+      (eu : Bytes) (k : Nat) :
+      (∀ x, earlier = some x → IsSpaces x.1) → IsSpaces w1 → EncSeqSet uids eu →
+      EncResponse (.vanished earlier.isSome uids)
+        (b!"* " ++ ((spell (b!"VANISHED") m ++ (earlierEnc earlier ++ (w1 ++ eu))) ++
+          (List.replicate k 32 ++ b!"\r\n")))
+  | quota (m : List Bool) (w1 w2 root eroot : Bytes) (res : List QuotaResource) (el : Bytes) (k : Nat) :
+      IsSpaces w1 → IsSpaces w2 → EncAString root eroot → validUtf8 root = true → EncQuotaList res el →
+      EncResponse (.quota { rootName := root, resources := res })
+        (b!"* " ++ ((spell (b!"QUOTA") m ++ (w1 ++ (eroot ++ (w2 ++ el)))) ++ (List.replicate k 32 ++ b!"\r\n")))
+  | quotaRoot (m : List Bool) (w1 name ename : Bytes) (items : List (Bytes × Bytes × Bytes)) (k : Nat) :
+      IsSpaces w1 → EncAString name ename → validUtf8 name = true →
+      (∀ x ∈ items, IsSpaces x.1 ∧ EncAString x.2.2 x.2.1 ∧ validUtf8 x.2.2 = true) →
+      EncResponse (.quotaRoot { mailboxName := name, quotaRootNames := items.map (·.2.2) })
+        (b!"* " ++ ((spell (b!"QUOTAROOT") m ++ (w1 ++ (ename ++ (items.map fun x => x.1 ++ x.2.1).flatten))) ++
+          (List.replicate k 32 ++ b!"\r\n")))
+  | id (m : List Bool) (w : Bytes) (v : Option (List (Bytes × Bytes))) (e : Bytes) (k : Nat) :
+      IsSpaces w → EncIdParams v e →
+      EncResponse (.id v) (b!"* " ++ ((spell (b!"ID") m ++ (w ++ e)) ++ (List.replicate k 32 ++ b!"\r\n")))
+  | acl (m : List Bool) (w1 name ename : Bytes) (ne : Bool) (entries : List AclEntry) (el : Bytes) (k : Nat) :
+      IsSpaces w1 → EncAString name ename → validUtf8 name = true → EncAclList ne entries el → (ne = false → k = 0) →
+      EncResponse (.acl { mailbox := canonMailbox name, acls := entries })
+        (b!"* " ++ ((spell (b!"ACL") m ++ (w1 ++ (ename ++ el))) ++ (List.replicate k 32 ++ b!"\r\n")))
+  | listRights (m : List Bool) (w1 w2 w3 name ename ident eident : Bytes) (req : List AclRight) (er : Bytes)
+      (ne : Bool) (opt : List AclRight) (eo : Bytes) (k : Nat) :
+      IsSpaces w1 → IsSpaces w2 → IsSpaces w3 → EncAString name ename → validUtf8 name = true →
+      EncAString ident eident → validUtf8 ident = true → EncRights req er → EncOptRights ne opt eo →
+      (ne = false → k = 0) →
+      EncResponse (.listRights ⟨canonMailbox name, ident, req, opt⟩)
+        (b!"* " ++ ((spell (b!"LISTRIGHTS") m ++ (w1 ++ (ename ++ (w2 ++ (eident ++ (w3 ++ (er ++ eo))))))) ++
+          (List.replicate k 32 ++ b!"\r\n")))
+  | myRights (m : List Bool) (w1 w2 name ename : Bytes) (rights : List AclRight) (er : Bytes) (k : Nat) :
+      IsSpaces w1 → IsSpaces w2 → EncAString name ename → validUtf8 name = true → EncRights rights er →
+      EncResponse (.myRights { mailbox := canonMailbox name, rights := rights })
+        (b!"* " ++ ((spell (b!"MYRIGHTS") m ++ (w1 ++ (ename ++ (w2 ++ er)))) ++ (List.replicate k 32 ++ b!"\r\n")))
+  /-- `* METADATA mailbox (entry value ...)` -/
+  | metadataSolicited (m : List Bool) (name ename : Bytes) (first : Bytes × Metadata) (others : List (Bytes × Metadata))
+      (k : Nat) : EncAString name ename → validUtf8 name = true → (∀ x ∈ first :: others, EncKeyval x.2 x.1) →
+      EncResponse (.mailboxData (.metadataSolicited (canonMailbox name) (first.2 :: others.map (·.2))))
+        (b!"* " ++ ((spell (b!"METADATA ") m ++ (ename ++ b!" ") ++
+          ([40] ++ (first.1 ++ (others.map fun x => [32] ++ x.1).flatten) ++ [41])) ++ (List.replicate k 32 ++ b!"\r\n")))
+  /-- `* METADATA mailbox entry entry ...` -/
+  | metadataUnsolicited (m : List Bool) (name ename : Bytes) (first : Bytes × Bytes) (others : List (Bytes × Bytes))
+      (k : Nat) : EncAString name ename → validUtf8 name = true → (∀ x ∈ first :: others, EncEntry x.2 x.1) →
+      EncResponse (.mailboxData (.metadataUnsolicited (canonMailbox name) (first.2 :: others.map (·.2))))
+        (b!"* " ++ ((spell (b!"METADATA ") m ++ (ename ++ b!" ") ++
+          (first.1 ++ (others.map fun x => b!" " ++ x.1).flatten)) ++ (List.replicate k 32 ++ b!"\r\n")))
   /-- untagged status response `* OK [code] text` -/
   | data (s : Status) (m : List Bool) (v : Option ResponseCode × Option Bytes) (e : Bytes) : EncTrailing v e →
       EncResponse (.data s v.1 v.2) (b!"* " ++ ((spell (statusKw s) m ++ e) ++ b!"\r\n"))
@@ -153,6 +213,95 @@ theorem parseResponse_enc (r : Response) (e : Bytes) (h : EncResponse r e) (rest
     | succ k =>
       obtain ⟨c, t, hct, hc⟩ := spaces_head k rest'
       refine Or.inr ⟨c, t, by have := congrArg (List.cons 32) hct; simpa [List.replicate_succ] using this, ?_⟩
+      rcases hc with rfl | rfl <;> decide
+  | gmailLabels m vs e k he =>
+    refine parseResponse_untaggedF _ _ k Any ?_ (fun _ => trivial) rest
+    exact responseDataAlt_mailbox _ 88 _ m e Any (mailboxData_gmailLabels m vs e he) (by decide)
+  | gmailMsgId m n e k hn he =>
+    refine parseResponse_untaggedF _ _ k (Starts notDigit) ?_ ?_ rest
+    · exact responseDataAlt_mailbox _ 88 _ m e _ (mailboxData_gmailMsgId m n hn e he) (by decide)
+    · intro rest'
+      obtain ⟨c, t, hct, hc⟩ := spaces_head k rest'
+      exact ⟨c, t, hct, by rcases hc with rfl | rfl <;> decide⟩
+  | enabled m items k hall =>
+    refine parseResponse_untaggedF _ _ k EndOfCaps (responseDataAlt_enabled m _ _ _ (enabled_enc m items hall)) ?_ rest
+    intro rest'
+    cases k with
+    | zero => exact Or.inl ⟨13, 10 :: rest', by simp, Or.inl rfl⟩
+    | succ k =>
+      obtain ⟨c, t, hct, hc⟩ := spaces_head k rest'
+      refine Or.inr ⟨c, t, by have := congrArg (List.cons 32) hct; simpa [List.replicate_succ] using this, ?_⟩
+      rcases hc with rfl | rfl <;> decide
+  | vanished m earlier w1 uids eu k hw0 hw1 hu =>
+    refine parseResponse_untaggedF _ _ k (Starts spaceOrCRLF)
+      (responseDataAlt_vanished m _ _ _ (vanished_enc m earlier hw0 w1 hw1 uids eu hu)) ?_ rest
+    intro rest'
+    obtain ⟨c, t, hct, hc⟩ := spaces_head k rest'
+    exact ⟨c, t, hct, by rcases hc with rfl | rfl <;> decide⟩
+  | quota m w1 w2 root eroot res el k hw1 hw2 hr hu hl =>
+    exact parseResponse_untaggedF _ _ k Any
+      (responseDataAlt_quota m _ _ _ (quota_enc m w1 w2 hw1 hw2 root eroot hr hu res el hl Any)) (fun _ => trivial) rest
+  | quotaRoot m w1 name ename items k hw1 hn hu hitems =>
+    refine parseResponse_untaggedF _ _ k EndOfWords
+      (responseDataAlt_quotaRoot m _ _ _ (quotaRoot_enc m w1 hw1 name ename hn hu items hitems)) ?_ rest
+    intro rest'
+    cases k with
+    | zero => exact Or.inl ⟨13, 10 :: rest', by simp, by decide⟩
+    | succ k =>
+      exact Or.inr ⟨List.replicate (k + 1) 32, b!"\r\n" ++ rest',
+        ⟨by simp [List.replicate_succ], fun c hc => by rw [List.eq_of_mem_replicate hc]; decide⟩, rfl,
+        ⟨13, 10 :: rest', rfl, by decide⟩⟩
+  | id m w v e k hw he =>
+    exact parseResponse_untaggedF _ _ k Any (responseDataAlt_id m _ _ _ (respId_enc m w hw v e he Any))
+      (fun _ => trivial) rest
+  | acl m w1 name ename ne entries el k hw1 hn hu hl hk =>
+    refine parseResponse_untaggedF _ _ k (AfterWords ne)
+      (responseDataAlt_acl m _ _ _ (acl_enc m w1 hw1 name ename hn hu ne entries el hl)) ?_ rest
+    intro rest'
+    cases ne with
+    | false => have := hk rfl; subst this; exact ⟨13, 10 :: rest', by simp, by decide⟩
+    | true =>
+      cases k with
+      | zero => exact Or.inl ⟨13, 10 :: rest', by simp, by decide⟩
+      | succ k =>
+        exact Or.inr ⟨List.replicate (k + 1) 32, b!"\r\n" ++ rest',
+          ⟨by simp [List.replicate_succ], fun c hc => by rw [List.eq_of_mem_replicate hc]; decide⟩, rfl,
+          ⟨13, 10 :: rest', rfl, by decide⟩⟩
+  | listRights m w1 w2 w3 name ename ident eident required er ne optional eo k hw1 hw2 hw3 hn hu hi hui hr ho hk =>
+    refine parseResponse_untaggedF _ _ k (AfterWords ne)
+      (responseDataAlt_listRights m _ _ _
+        (listRights_enc m w1 w2 w3 hw1 hw2 hw3 name ename hn hu ident eident hi hui required er hr ne optional eo ho))
+      ?_ rest
+    intro rest'
+    cases ne with
+    | false => have := hk rfl; subst this; exact ⟨13, 10 :: rest', by simp, by decide⟩
+    | true =>
+      cases k with
+      | zero => exact Or.inl ⟨13, 10 :: rest', by simp, by decide⟩
+      | succ k =>
+        exact Or.inr ⟨List.replicate (k + 1) 32, b!"\r\n" ++ rest',
+          ⟨by simp [List.replicate_succ], fun c hc => by rw [List.eq_of_mem_replicate hc]; decide⟩, rfl,
+          ⟨13, 10 :: rest', rfl, by decide⟩⟩
+  | myRights m w1 w2 name ename rights er k hw1 hw2 hn hu hr =>
+    refine parseResponse_untaggedF _ _ k (Starts notAstringChar)
+      (responseDataAlt_myRights m _ _ _ (myRights_enc m w1 w2 hw1 hw2 name ename hn hu rights er hr)) ?_ rest
+    intro rest'
+    obtain ⟨c, t, hct, hc⟩ := spaces_head k rest'
+    exact ⟨c, t, hct, by rcases hc with rfl | rfl <;> decide⟩
+  | metadataSolicited m name ename first others k hn hu hall =>
+    have h0 := responseDataAlt_metaS m _ _ Any (by
+      have := metadataSolicited_enc m name ename hn hu first others hall Any
+      simpa [List.append_assoc] using this)
+    have := parseResponse_untaggedF _ _ k Any h0 (fun _ => trivial) rest
+    simpa [List.append_assoc] using this
+  | metadataUnsolicited m name ename first others k hn hu hall =>
+    refine parseResponse_untaggedF _ _ k EndOfEntries (responseDataAlt_metaU m name ename hn hu first others hall) ?_ rest
+    intro rest'
+    cases k with
+    | zero => exact Or.inl ⟨13, 10 :: rest', by simp, by decide⟩
+    | succ k =>
+      obtain ⟨c, t, hct, hc⟩ := spaces_head k rest'
+      refine Or.inr ⟨List.replicate k 32 ++ (b!"\r\n" ++ rest'), by simp [List.replicate_succ], ⟨c, t, hct, ?_⟩⟩
       rcases hc with rfl | rfl <;> decide
   | data s m v e he =>
     have h0 : Parses responseDataAlt (spell (statusKw s) m ++ e) (.data s v.1 v.2) (Starts crlfStart) := by
